@@ -4,8 +4,13 @@ Two halves:
   * queue half (this file, `run_queue_half`): prunable_mpsc + bft's inbound filter / selection
     function.  Theorems in Properties/C16.v over Model/Chan.v, correspondence `vh chan` vs
     Model.Chan.run_case, predicates on the Rust behaviour alone.
-  * replica-cache half (`run_cache_half`): added by the orchestrator (see the marked place in
-    `run`).
+  * replica-cache half (`run_cache_half`): commit_views_cache / commit_qcs_cache /
+    timeout_views_cache / timeout_qcs_cache of the replica bounded by the committee size.
+    Theorems in Properties/C16Caches.v over Model/Replica.v (proofs: Proofs/ReplicaCaches.v),
+    correspondence `vh replica` vs Model.ReplicaRun.run_case on flood scenarios
+    (gen/replica_gen.py, opts["flood"]) through c05.run_replica_cases, predicates on every
+    snapshot of the implementation.  Its generated Coq case files go to build/cases/C16R (the
+    queue half keeps build/cases/C16); regression scenarios, if any, in corpus/C16R.json.
 """
 import json
 import sys
@@ -609,20 +614,173 @@ def run_queue_half(rep, rng, cov, broken):
     return pred_fail, first
 
 
+# ---------------------------------------------------------------------------
+# replica-cache half
+
+CACHE_PROP_FILES = ["theories/Properties/C16Caches.v"]
+SNAP_COMMIT_VIEWS, SNAP_COMMIT_QCS, SNAP_TIMEOUT_VIEWS, SNAP_TIMEOUT_QCS = 6, 7, 8, 9
+
+
+def snapshot_of(ob):
+    """The snapshot inside one step observation of `vh replica` (None for a dead replica)."""
+    if ob == [9] or len(ob) < 3:
+        return None
+    snap = ob[3] if ob[0] == [7] and len(ob) > 3 else ob[2]
+    return snap if isinstance(snap, list) and len(snap) > SNAP_TIMEOUT_QCS else None
+
+
+def predicate_caches(case, out, stats=None):
+    """The property's second sentence evaluated on every snapshot of the IMPLEMENTATION: the
+    caches are bounded by the committee size alone."""
+    bad = []
+    members = {int(k) for k, _ in case["committee"]}
+    n = len(members)
+    for i, ob in enumerate(out["obs"]):
+        snap = snapshot_of(ob)
+        if snap is None:
+            continue
+        cv, cq, tv, tq = (snap[SNAP_COMMIT_VIEWS], snap[SNAP_COMMIT_QCS], snap[SNAP_TIMEOUT_VIEWS], snap[SNAP_TIMEOUT_QCS])
+
+        def fail(text):
+            bad.append({"step": i, "failed": f"step {i}, committee of {n}: {text}", "snapshot_caches": [cv, cq, tv, tq]})
+
+        for name, views in (("commit_views_cache", cv), ("timeout_views_cache", tv)):
+            keys = [int(e[0]) for e in views]
+            if len(views) > n:
+                fail(f"{name} has {len(views)} entries")
+            if len(set(keys)) != len(keys) or not set(keys) <= members:
+                fail(f"{name} keys {keys} are not distinct committee members")
+        if len(cq) > n:
+            fail(f"commit_qcs_cache holds certificates for {len(cq)} views")
+        for e in cq:
+            if int(e[1]) > n:
+                fail(f"commit_qcs_cache holds {e[1]} certificates under construction for view {e[0]}")
+        if sum(int(e[1]) for e in cq) > n * n:
+            fail(f"commit_qcs_cache holds {sum(int(e[1]) for e in cq)} certificates under construction")
+        if len(tq) > n:
+            fail(f"timeout_qcs_cache holds certificates for {len(tq)} views")
+        active_c = {int(e[1]) for e in cv}
+        active_t = {int(e[1]) for e in tv}
+        stray = [int(e[0]) for e in cq if int(e[0]) not in active_c]
+        if stray:
+            fail(f"commit_qcs_cache keeps views {stray[:5]} that are nobody's latest commit view")
+        stray = [int(v) for v in tq if int(v) not in active_t]
+        if stray:
+            fail(f"timeout_qcs_cache keeps views {stray[:5]} that are nobody's latest timeout view")
+        if stats is not None:
+            stats["snapshots"] += 1
+            stats["max_commit_views"] = max(stats["max_commit_views"], len(cv))
+            stats["max_commit_qc_views"] = max(stats["max_commit_qc_views"], len(cq))
+            stats["max_qcs_in_one_view"] = max([stats["max_qcs_in_one_view"]] + [int(e[1]) for e in cq])
+            stats["max_timeout_views"] = max(stats["max_timeout_views"], len(tv))
+            stats["max_timeout_qc_views"] = max(stats["max_timeout_qc_views"], len(tq))
+            if len(cq) >= 2 or len(tq) >= 2:
+                stats["snapshots_with_several_views_cached"] += 1
+            stats["distinct_views_seen"].update(active_c | active_t)
+        if len(bad) > 20:
+            break
+    return bad
+
+
+def run_cache_half(rep, rng, cov, broken):
+    """Returns (pred_fail, first_disagreement) in the shape of the queue half and merges its
+    counts into `cov` (obligations / discharged / evaluations / distinct_nontrivial are added,
+    everything else goes under cache_* keys)."""
+    import c05
+    import replica_gen as RG
+    tier = rep.tier
+    po = common.proof_obligations(CACHE_PROP_FILES)
+    if not po["ok"]:
+        broken.append("Coq obligations of Properties/C16Caches.v: " + (po["log_tail"] or str(po["hygiene_problems"] or po["bad_axioms"])))
+    stats = {"snapshots": 0, "max_commit_views": 0, "max_commit_qc_views": 0, "max_qcs_in_one_view": 0,
+             "max_timeout_views": 0, "max_timeout_qc_views": 0, "snapshots_with_several_views_cached": 0,
+             "distinct_views_seen": set()}
+    opts = {"rounds": 4 if tier == "quick" else 6, "crash": False, "extreme": False,
+            "flood": {"turns": 25 if tier == "quick" else 40, "byz": 3}}
+    ncases = 16 if tier == "quick" else 160
+    mine = []
+    R = c05.run_replica_cases(rep, "C16R", opts, ncases, rng, mine,
+                              extra_pred=lambda c, o: predicate_caches(c, o, stats))
+    broken += mine
+    cases, outs, mm = R["cases"], R["outs"], R["mm"]
+    flood_msgs = sum(v for k, v in R["kinds"].items() if k in ("flood:commit", "flood:timeout"))
+    per_case_views = []
+    for c in cases:
+        vs = set()
+        for op in c["ops"]:
+            m = op.get("m") or {}
+            for kind in ("commit", "timeout"):
+                if kind in m:
+                    vs.add(int(m[kind]["v"]["n"]))
+        per_case_views.append(len(vs))
+    if not R["pred_fail"]:
+        # the generator must actually stress the caches, otherwise the predicates are vacuous
+        if flood_msgs < 100 * len(cases) or stats["max_commit_qc_views"] < 2 or stats["max_timeout_qc_views"] < 2 \
+                or stats["max_qcs_in_one_view"] < 2:
+            raise common.MachineryError(f"flood generator too weak: {flood_msgs} flood votes, stats {stats}")
+    pred_fail = [{"case": p["case"], "impl": {"obs_at_step": outs[p["case_index"]]["obs"][p["step"]] if "step" in p else None},
+                  "failed": p["failed"], "step": p.get("step"), "caches": p.get("snapshot_caches")} for p in R["pred_fail"]]
+    first = None
+    if mm:
+        i = sorted(mm)[0]
+        fd = c05.first_diff(mm[i], outs[i]["obs"])
+        first = {"case": RG.strip(cases[i]), "first_differing_step": fd[0] if fd else None,
+                 "model_step_obs": fd[1] if fd else None, "impl_step_obs": fd[2] if fd else None}
+    stats["distinct_views_seen"] = len(stats["distinct_views_seen"])
+    cov["obligations"] = cov.get("obligations", 0) + po["obligations"] + 1
+    cov["discharged"] = cov.get("discharged", 0) + po["discharged"] + (0 if mm else 1)
+    cov["theorems"] = cov.get("theorems", []) + po["theorems"]
+    cov["axioms"] = sorted(set(cov.get("axioms", [])) | set(po["axioms"]))
+    cov["evaluations"] = cov.get("evaluations", 0) + R["steps"]
+    cov["distinct_nontrivial"] = cov.get("distinct_nontrivial", 0) + R["dist"]
+    cov["checker_cmd"] = cov.get("checker_cmd", "") + "; ./coqmake theories/Properties/C16Caches.vo + coqc on generated " \
+        "build/cases/C16R/cases_*.v (vm_compute of Model.ReplicaRun.run_case)"
+    cov["trusted_base"] = cov.get("trusted_base", []) + [
+        "cache half: bft hook feature verif_hooks (step-driven replica wrapper, snapshot of the four caches; add-only)",
+        "cache half: harness execution engine of `vh replica` (blocks persisted as soon as queued; payload verdict by id)"]
+    cov["partial"] = cov.get("partial", "").replace("see run_cache_half", "see cache_partial")
+    cov.update({
+        "cache_rule": "replica scenarios of gen/replica_gen.py with opts['flood']: one replica among 2-7 validators, a puppet network "
+                      "walking 4 (quick) / 6 (thorough) views through commit and timeout rounds with the usual injected faults; up to 3 "
+                      "Byzantine members whose joint weight is below the quorum each send, in bursts of 25 / 40 turns before and after "
+                      "every round, validly signed commit and timeout votes (kinds alternating) for views nobody is in: per member and "
+                      "kind a rising view counter (steps 1,1,1,1,2,5 so that members meet in one view with equal or different votes) "
+                      "starting 2, 60, 10^6, 2^40 or u64::MAX-10^6 views ahead; 1/16 of the votes repeat or undercut the member's last "
+                      "view, 1/16 carry a bad signature, 1/16 come from a non-member. Per step the outcome, the ordered effects and "
+                      "the full snapshot (including the four caches: views maps, per-view certificate counts) are compared with "
+                      "Model.ReplicaRun.run_case; the predicates are evaluated on every snapshot of the implementation. "
+                      "evaluations += steps executed; distinct_nontrivial += distinct step observations",
+        "cache_scenarios": len(cases), "cache_steps": R["steps"], "cache_distinct_step_observations": R["dist"],
+        "cache_flood_votes": flood_msgs,
+        "cache_distinct_vote_views_per_scenario": {"min": min(per_case_views), "max": max(per_case_views)},
+        "cache_input_distribution": R["kinds"], "cache_outcome_distribution": R["results"],
+        "cache_impl_stats": stats,
+        "cache_samples": [{"committee": cases[i]["committee"], "case_ops_head": RG.strip(cases[i])["ops"][:3],
+                           "impl_obs_head": outs[i]["obs"][:2],
+                           "model_obs_head": (R["samp"].get(i) or [])[:2] if isinstance(R["samp"].get(i), list) else None,
+                           "impl_last_snapshot_caches": (snapshot_of(outs[i]["obs"][-1]) or [None] * 10)[6:10]}
+                          for i in R["sample_ids"] if i < len(cases)],
+        "cache_correspondence_mismatches": len(mm), "cache_predicate_failures": len(pred_fail),
+        "cache_partial": "replica-cache half: nothing known to be missing for the statement over the model (every input, every "
+                         "outcome, crash/restart runs included: C16_run_case_caches_bounded). The snapshot of `vh replica` reports "
+                         "the number of certificates per view, not their bitmaps, so bitmap length and disjointness are proved "
+                         "on the model and tied to the code only through the per-step correspondence of outcomes and counts",
+    })
+    rep.assumptions += ["H-SIG (Signed::verify is one bit of the abstract message; symbolic aggregate signatures)"]
+    return pred_fail, first
+
+
 def run(rep):
     rng = Rng(rep.seed)
     cov = rep.cov
     broken = []
     pred_fail, first = run_queue_half(rep, rng, cov, broken)
 
-    # ---------------------------------------------------------------------
-    # REPLICA-CACHE HALF (commit_views_cache / commit_qcs_cache / timeout_views_cache /
-    # timeout_qcs_cache bounded by the committee size): to be added by the orchestrator as
-    #     cache_fail, cache_first = run_cache_half(rep, rng.fork(), cov, broken)
-    #     pred_fail += cache_fail; first = first or cache_first
-    # `run_cache_half` must append to `broken`, return predicate failures in the same shape
-    # ({"case":…, "impl":…, "failed": text}) and merge its counts into `cov`.
-    # ---------------------------------------------------------------------
+    # replica-cache half (commit_views_cache / commit_qcs_cache / timeout_views_cache /
+    # timeout_qcs_cache bounded by the committee size)
+    cache_fail, cache_first = run_cache_half(rep, rng.fork(), cov, broken)
+    pred_fail += cache_fail
+    first = first or cache_first
 
     if pred_fail:
         f = pred_fail[0]
@@ -640,6 +798,14 @@ def replay(path):
         print("no concrete input in replay file:", d.get("broken"))
         return 1
     c = fi["case"]
+    if "committee" in c:  # a replica scenario of the cache half
+        common.cargo_build(["replica"], "dev")
+        o = common.run_impl("replica", [c], "dev")[0]
+        for i, ob in enumerate(o["obs"]):
+            snap = snapshot_of(ob)
+            print(i, json.dumps(ob[0]) if ob != [9] else "dead", "caches:", json.dumps(snap[6:10]) if snap else None)
+        print("predicate:", [b["failed"] for b in predicate_caches(c, o)] or "holds")
+        return 0
     common.cargo_build([BIN], "dev")
     o = common.run_impl(BIN, [c], "dev")[0]
     print("case:", json.dumps(c))
